@@ -555,9 +555,32 @@ pub fn run_c20(ctx: &Ctx) -> i32 {
     let mut states = 0u64;
     // ---- ContractWrapper: all 712 typestate chains
     let chains = crate::gen_c20::wrapper_chains();
+    let chains_len = chains.len();
     for (ctor, steps, c) in &chains {
         evals += check_wrapper(ctx, ctor, steps, c.as_ref());
         states += 1;
+    }
+    // the supplied checksum is what the chain reports for the stored code AND for every copy of it
+    // (a code without supplied checksum: the copy reports the original's)
+    {
+        let mut app = cw_multi_test::custom_app::<WMsg, WQuery, _>(cw_multi_test::no_init);
+        for (ctor, steps, c) in crate::gen_c20::wrapper_chains() {
+            let supplied = steps.contains(&"checksum");
+            let id = app.store_code(c);
+            let dup = app.duplicate_code(id);
+            let dup2 = dup.as_ref().ok().and_then(|d| app.duplicate_code(*d).ok());
+            let cs = |app: &App<_, _, _, _, _, _, _, _, _, _>, id: u64| app.wrap().query_wasm_code_info(id).map(|i| i.checksum).ok();
+            let orig = cs(&app, id);
+            let copies: Vec<Option<cosmwasm_std::Checksum>> = [dup.as_ref().ok().copied(), dup2].iter().map(|d| d.and_then(|d| cs(&app, d))).collect();
+            evals += 1;
+            let want = if supplied { Some(w_checksum()) } else { orig };
+            if orig != want || copies.iter().any(|c| *c != want) || orig.is_none() {
+                ctx.violation(
+                    &format!("c20:wrapper-checksum-{}", if orig != want { "lost" } else { "lost-in-copy" }),
+                    json!({"engine": "builders", "kind": "ContractWrapper", "constructor": ctor, "steps": steps, "what": "checksum reported by the chain for the stored code, its copy and the copy's copy", "stored": format!("{:?}", orig), "copies": format!("{:?}", copies), "want": format!("{:?}", want)}),
+                );
+            }
+        }
     }
     // ---- AppBuilder
     reset_init();
@@ -674,7 +697,7 @@ pub fn run_c20(ctx: &Ctx) -> i32 {
     states += seen.len() as u64;
     let coverage = json!({
         "states": states,
-        "transitions": transitions + nchains + chains.len() as u64,
+        "transitions": transitions + nchains + chains_len as u64,
         "traces_validated_against_impl": states,
         "evaluations": evals,
         "distinct_nontrivial": states,
